@@ -106,6 +106,8 @@ func CheckPostings(r *Report, tag string, seg segment.Segment, m *model.Seg, o P
 			r.Fail("dict-cardinality", "%s: field %q Cardinality %d, want %d", tag, f, got, len(terms))
 		}
 		n := 0
+		// lookup keys travel in one buffer that is overwritten for the next lookup
+		keyBuf := make([]byte, 0, 64)
 		var it segment.PostingsIterator
 		var rePL segment.PostingsList // recycled list / iterator objects (prealloc), used for every other request
 		var reIt segment.PostingsIterator
@@ -127,7 +129,8 @@ func CheckPostings(r *Report, tag string, seg segment.Segment, m *model.Seg, o P
 					prePL, preIt = mpl, mpl.Iterator(true, true, true, nil)
 				}
 			}
-			pl, err := dict.PostingsList([]byte(t), nil, prePL)
+			keyBuf = append(keyBuf[:0], t...)
+			pl, err := dict.PostingsList(keyBuf, nil, prePL)
 			if err != nil || pl == nil {
 				r.Fail("pl-err", "%s: PostingsList(%q,%s): %v", tag, f, short([]byte(t)), err)
 				continue
